@@ -608,6 +608,20 @@ def c06_worker(job):
             case.meta['records'] = recs
         out['stats']['planted_i_to_l_records'] = planted
         if rng.random() < 0.6:
+            # a CHAIN of fusions (B -> C with the donor breakpoint in an intron of B, A -> B with A in
+            # front of B): B's records are loaded twice in one run — whatever a route through the
+            # files (.idx or scan) keeps between the two loads must not show in the output
+            from . import cv_backbone as _cb
+            with gen_ref.quiet():
+                genome, anno, _ = gen_ref.load_reference(case)
+            f1_, f2_ = _cb.find_fusion_chain(anno, genome, rng, list(anno.transcripts.keys()))
+            if f1_ is not None:
+                have_ = {r.id for r in recs}
+                add_ = [f for f in (f1_, f2_) if f.id not in have_]
+                recs = recs + add_
+                case.meta['records'] = recs
+                out['stats']['fusion_chain_inputs'] = 1
+        if rng.random() < 0.6:
             # two alternative-splicing Insertion / Substitution records with the SAME anchor and the
             # SAME id but different donor segments (a tool that names events by their anchor): both
             # must be called whatever file holds which and in whatever order the files are given
